@@ -63,11 +63,15 @@ claim("C15",
       "C15_eq (views are equal exactly when their six parts contain the same elements). Tie: the same source-shape "
       "translator and obligations as C14 (expressions that rebuild each GameState part in both decoders, as_dict literal, "
       "observation_as_dict keys) plus differential runs on random views, re-ordered documents and a malformed stream; "
-      "C15_frame (every response is one JSON document + end-of-message marker whose view decodes to the view the "
-      "coordinator holds) is decided by monitors over the raw bytes of real in-process coordinator sessions, single-agent and "
-      "multi-agent with collective resets and faults (every CREATED, OK, FORBIDDEN and RESET_DONE response must carry the view "
-      "held for THAT agent and the view the world returned; these sessions are also followed by the coordinator model) - "
-      "partial: not a theorem.",
+      "Coordinator clause (Props/C15_coord.v over Model/Coord.v, Proofs/CoordObs.v; every reachable state, any number of "
+      "agents, any interleaving): C15_response_is_held (whatever a handler step puts on a connection's queue says what the "
+      "coordinator holds for THAT agent in the state reached: CREATED the view; OK view, reward, end flag; FORBIDDEN view, "
+      "reward, reason, ended; RESET_DONE view, reward, end flag), from two new invariants proven for every label: "
+      "C15_stored_observation (the stored observation equals the record unless the final reply is still parked at the "
+      "end-of-episode barrier) and C15_created_view (a join handler parked at the start barrier announces the view held). "
+      "The byte-level frame (one JSON document + end-of-message marker) is decided by monitors over the raw bytes of real "
+      "in-process coordinator sessions, single-agent and multi-agent with collective resets and faults (these sessions are "
+      "also followed by the coordinator model) - that part is partial: not a theorem.",
       "Trusted: Coq kernel + VM; std++ 1.8; translator harness/translate/codec.py; json library as premise; IPv4-only "
       "address validity; the in-process loop driver and cyst stub for the session monitor.",
       "machine-checked proof in Rocq (Coq 8.16, std++) of a Gallina codec model + source-shape translator with per-run obligations + model/code correspondence + session monitor",
